@@ -3232,16 +3232,29 @@ theorem predec_toInt {f : Fmt} {a : Limbs} (hw : 1 ≤ f.w) (hn : 1 ≤ f.n) (ha
     rw [Int.ofNat_sub (by omega), Int.natCast_add, cast_pow]; omega
   exact cong_of_eq_add_mul e
 
-theorem mul_toInt {f : Fmt} {a b : Limbs} (hw : 1 ≤ f.w) (hn : 1 ≤ f.n) (h4 : 3 ≤ f.w ∨ f.n ≠ 4)
-    (ha : Val f a) (hb : Val f b) :
-    toInt f (opMul f.w a b) = wrapTwos f.N f.signed (toInt f a * toInt f b) ∧ Val f (opMul f.w a b) := by
+/-- below the Karatsuba threshold `operator*=` is the schoolbook overload, whatever the local arrays hold -/
+theorem opMulWith_schoolbook {w : Nat} {a b : Limbs} (init : Limbs × Limbs) (hk : a.length < karaThreshold) :
+    opMulWith w init a b = mulUnary w a b := by
+  unfold opMulWith
+  rw [if_neg (by omega)]
+
+/-- the schoolbook overload (fewer than 129 limbs); the Karatsuba overload is not covered (see `CnlProperties/C10.lean`) -/
+theorem mulWith_toInt {f : Fmt} {a b : Limbs} (init : Limbs × Limbs) (hw : 1 ≤ f.w) (hn : 1 ≤ f.n) (h4 : 3 ≤ f.w ∨ f.n ≠ 4)
+    (hk : f.n < karaThreshold) (ha : Val f a) (hb : Val f b) :
+    toInt f (opMulWith f.w init a b) = wrapTwos f.N f.signed (toInt f a * toInt f b) ∧ Val f (opMulWith f.w init a b) := by
+  rw [opMulWith_schoolbook init (by rw [ha.2]; exact hk)]
   obtain ⟨h1, h2, h3⟩ := Mul.mulUnary_spec ha.1 hb.1 (ha.2.trans hb.2.symm) (by rw [ha.2]; exact h4)
-  have hv : Val f (opMul f.w a b) := ⟨h2, h3.trans ha.2⟩
+  have hv : Val f (mulUnary f.w a b) := ⟨h2, h3.trans ha.2⟩
   refine ⟨?_, hv⟩
   rw [len_pow ha] at h1
   refine toInt_of_nat_mod (N_pos hw hn) hv h1 ?_
   rw [Int.natCast_mul]
   exact cong_mul (toInt_cong f a) (toInt_cong f b)
+
+theorem mul_toInt {f : Fmt} {a b : Limbs} (hw : 1 ≤ f.w) (hn : 1 ≤ f.n) (h4 : 3 ≤ f.w ∨ f.n ≠ 4)
+    (hk : f.n < karaThreshold) (ha : Val f a) (hb : Val f b) :
+    toInt f (opMul f.w a b) = wrapTwos f.N f.signed (toInt f a * toInt f b) ∧ Val f (opMul f.w a b) :=
+  mulWith_toInt ([], []) hw hn h4 hk ha hb
 
 theorem and_toInt {f : Fmt} {a b : Limbs} (hw : 1 ≤ f.w) (hn : 1 ≤ f.n) (ha : Val f a) (hb : Val f b) :
     toInt f (bitAnd a b) = wrapTwos f.N f.signed (Int.ofNat (pattern f.N (toInt f a) &&& pattern f.N (toInt f b)))
